@@ -63,6 +63,12 @@ def gen_cases(tier, seed):
                 op["reply"] = rng.choice(["ok", "ok", "silence"])
             ops.append(op)
         cases.append({"ident": ident, "nid": nid, "ops": ops})
+    # selective switch and identity inquiry for boundary identities (all-one, all-zero, single parts all-one)
+    for ident in ([0xFFFFFFFF] * 4, [0] * 4, [0xFFFFFFFF, 1, 2, 3], [1, 0xFFFFFFFF, 0x80000000, 0x7FFFFFFF],
+                  [0xFF000000, 0x00FF0000, 0x0000FF00, 0x000000FF], [rng.getrandbits(32) | 0xFF000000 for _ in range(4)]):
+        ops = [{"name": "switch_selective", "ids": list(ident), "reply": "ok"}]
+        ops += [{"name": "inquire_address", "args": [cs], "reply": "ok"} for cs in (0x5A, 0x5B, 0x5C, 0x5D)]
+        cases.append({"ident": list(ident), "ops": ops})
     # configure node ids 0..255 and bit timing indexes 0..255 with an accepting slave
     ops = [{"name": "configure_node_id", "args": [n], "reply": "ok"} for n in range(256)]
     ops += [{"name": "configure_bit_timing", "args": [n], "reply": "ok"} for n in range(256)]
